@@ -26,6 +26,22 @@ class Stop(Exception):
         self.value = value
 
 
+class Raised(Exception):
+    """the evaluated code executed a ``raise`` statement (``what`` = source text of the raised expression)"""
+
+    def __init__(self, what):
+        Exception.__init__(self, what)
+        self.what = what
+
+
+class _Break(Exception):
+    pass
+
+
+class _Continue(Exception):
+    pass
+
+
 class _Return(Exception):
     def __init__(self, value):
         Exception.__init__(self)
@@ -41,7 +57,19 @@ CMP = {ast.Eq: operator.eq, ast.NotEq: operator.ne, ast.Lt: operator.lt, ast.LtE
 BUILTINS = {'len': len, 'int': int, 'bool': bool, 'min': min, 'max': max, 'abs': abs, 'range': range, 'bytes': bytes,
             'bytearray': bytearray, 'reversed': lambda x: list(reversed(x)), 'list': list, 'sum': sum, 'divmod': divmod}
 METHODS = {(int, 'bit_length'), (bytes, 'lstrip'), (bytes, 'rstrip'), (bytearray, 'lstrip'), (bytearray, 'rstrip'),
-           (list, 'append')}
+           (list, 'append'), (str, 'join'), (str, 'lower'), (str, 'upper'), (str, 'encode'), (bytes, 'join'),
+           (bytes, 'decode'), (bytes, 'hex'), (str, 'format')}
+for _t in (str, bytes, bytearray):
+    for _m in ('endswith', 'startswith', 'strip', 'lstrip', 'rstrip', 'lower', 'upper', 'title', 'swapcase', 'find', 'index',
+               'count', 'split', 'replace', 'isdigit', 'isalpha', 'isspace'):
+        METHODS.add((_t, _m))
+
+
+class Obj:
+    """a record with attributes the evaluated code may read (and methods given as python callables)"""
+
+    def __init__(self, **kw):
+        self.__dict__.update(kw)
 MAX_STEPS = 200000
 
 
@@ -119,9 +147,31 @@ class Evaluator:
                 raise Unsupported('%s: %s' % (ast.unparse(n), e))
         if isinstance(n, ast.Call):
             return self.call(n)
+        if isinstance(n, (ast.ListComp, ast.GeneratorExp)):
+            return self.comprehension(n, 0, [])
+        if isinstance(n, ast.Attribute) and not (isinstance(n.value, ast.Name) and n.value.id not in self.env):
+            try:
+                base = self.ev(n.value)
+            except Unsupported:
+                base = None
+            if isinstance(base, Obj) and hasattr(base, n.attr):
+                return getattr(base, n.attr)
         if isinstance(n, ast.Attribute) and self.name_hook is not None:
             return self.name_hook(ast.unparse(n))
         raise Unsupported('expression %s' % ast.unparse(n)[:60])
+
+    def comprehension(self, n, i, out):
+        if i == len(n.generators):
+            out.append(self.ev(n.elt))
+            return out
+        g = n.generators[i]
+        saved = dict(self.env)
+        for x in self.ev(g.iter):
+            self.assign(g.target, x)
+            if all(self.ev(c) for c in g.ifs):
+                self.comprehension(n, i + 1, out)
+        self.env = saved
+        return out
 
     def call(self, n):
         args = None
@@ -141,6 +191,8 @@ class Evaluator:
             for t, m in METHODS:
                 if isinstance(base, t) and not isinstance(base, bool) and m == n.func.attr:
                     return getattr(base, m)(*args, **kwargs)
+            if isinstance(base, Obj) and callable(getattr(base, n.func.attr, None)):
+                return getattr(base, n.func.attr)(*args, **kwargs)
         raise Unsupported('call %s' % ast.unparse(n)[:60])
 
     # -- statements -----------------------------------------------------------------
@@ -172,15 +224,39 @@ class Evaluator:
             elif isinstance(st, ast.If):
                 self.run(st.body if self.ev(st.test) else st.orelse)
             elif isinstance(st, ast.While):
+                broke = False
                 while self.ev(st.test):
-                    self.run(st.body)
+                    try:
+                        self.run(st.body)
+                    except _Break:
+                        broke = True
+                        break
+                    except _Continue:
+                        continue
+                if not broke:
+                    self.run(st.orelse)
             elif isinstance(st, ast.For):
                 it = self.ev(st.iter)
-                if not isinstance(it, (range, list, tuple, bytes, bytearray)):
+                if not isinstance(it, (range, list, tuple, bytes, bytearray, str)):
                     raise Unsupported('iteration over %s' % ast.unparse(st.iter))
+                broke = False
                 for x in it:
                     self.assign(st.target, x)
-                    self.run(st.body)
+                    try:
+                        self.run(st.body)
+                    except _Break:
+                        broke = True
+                        break
+                    except _Continue:
+                        continue
+                if not broke:
+                    self.run(st.orelse)
+            elif isinstance(st, ast.Break):
+                raise _Break()
+            elif isinstance(st, ast.Continue):
+                raise _Continue()
+            elif isinstance(st, ast.Raise):
+                raise Raised(ast.unparse(st.exc) if st.exc is not None else 're-raise')
             elif isinstance(st, ast.Return):
                 raise _Return(self.ev(st.value) if st.value is not None else None)
             elif isinstance(st, ast.Expr):
@@ -199,3 +275,69 @@ class Evaluator:
         except _Return as r:
             return r.value
         return None
+
+
+class ClassRef:
+    """a repository class named by the evaluated code (calls on it resolve through its static MRO)"""
+
+    def __init__(self, info):
+        self.info = info
+
+
+def class_call_hook(cls, extra=None, model=None):
+    """hook resolving ``cls.m(...)`` / ``self.m(...)`` through the static MRO of ``cls`` (a sa.model.ClassInfo) and
+    evaluating the callee's body with the same hook; with ``model`` given, module level class names evaluate to ClassRef
+    and calls on a ClassRef resolve the same way; ``extra`` is consulted first"""
+    def call_method(owner, m, n, ev):
+        params = [a.arg for a in m.node.args.args]
+        if params and params[0] in ('self', 'cls'):
+            params = params[1:]
+        args = [ev.ev(a) for a in n.args]
+        env = dict(zip(params, args))
+        for k in n.keywords:
+            env[k.arg] = ev.ev(k.value)
+        defaults = m.node.args.defaults
+        for p, d in zip(params[len(params) - len(defaults):], defaults):
+            if p not in env:
+                env[p] = ev.ev(d)
+        sub = Evaluator(env, make(owner, m.module), name_hook_for(m.module, ev.name_hook))
+        return sub.function(m.node)
+
+    def name_hook_for(module, outer):
+        def nh(name):
+            if model is not None and '.' not in name:
+                r = model.resolve_name(module, name)
+                if r is not None and hasattr(r, 'mro') and hasattr(r, 'resolve'):
+                    return ClassRef(r)
+            if outer is not None:
+                return outer(name)
+            raise Unsupported('free name %s' % name)
+        return nh
+
+    def make(owner, module):
+        def hook(n, ev):
+            if extra is not None:
+                r = extra(n, ev)
+                if r is not NotImplemented:
+                    return r
+            f = n.func
+            if isinstance(f, ast.Attribute):
+                if isinstance(f.value, ast.Name) and f.value.id in ('self', 'cls') and f.value.id not in ev.env:
+                    target = owner
+                else:
+                    try:
+                        base = ev.ev(f.value)
+                    except Unsupported:
+                        return NotImplemented
+                    if not isinstance(base, ClassRef):
+                        return NotImplemented
+                    target = base.info
+                m = target.resolve(f.attr)
+                if m is None or getattr(m.module, 'external', False):
+                    raise Unsupported('unknown method %s.%s' % (getattr(target, 'name', '?'), f.attr))
+                return call_method(target, m, n, ev)
+            return NotImplemented
+        return hook
+    top = make(cls, cls.module)
+    top.name_hook_for = name_hook_for
+    return top
